@@ -11,6 +11,10 @@ A case = {"drive": "fetcher"|"engine", "fb": 0 (fake) | 1 | 2 (real, that many c
        | {"drive": "pvpool", "meters": 2|3, "script": [{"m": [meter values], "i": [inverter values], "order": "mi"|"im"}]}
          (full stack: `microgrid.new_pv_pool().power` over the repo's MockMicrogrid — real PVPowerFormula fallback
          generator / `_get_metric_fallback_components`, lock-step; oracle only, not replayed on the model)
+       | {"drive": "genfb", "topo": "A"|"B", "formula": grid_power|grid_reactive_power|consumer_power|producer_power|
+          pv_power|battery_power, "ticks": n, "missing": {primary meter id: [ticks]}}
+         (full stack: the real generator of every formula that has fallbacks, through the real FormulaEnginePool over a
+         component graph and a stand-in resampling actor; ACTIVE and REACTIVE power carry different encodings; oracle only)
 After every event the loop is settled.  Observed: the result of every `fetch_next()` of the term with the fallback
 ([tick,val] | "None" | "<ErrorClass>"), `fallback.is_running` at the end, and in engine mode the formula outputs.
 
@@ -44,7 +48,9 @@ RULE = ("event schedules (primary samples valid/None/NaN/inf in runs, primary cl
         "with lag 0-4) x drive {fetch_next loop, FormulaEngine '#p + #b'} x fallback {fake receiver, real "
         "FallbackFormulaMetricFetcher over 1-2 component channels}; non-trivial = the primary fails at least once "
         "and the fallback delivers after that; plus lock-step fault scripts on microgrid.new_pv_pool().power over the "
-        "repo's MockMicrogrid (real PVPowerFormula fallback generator); distinct by canonical JSON hash")
+        "repo's MockMicrogrid (real PVPowerFormula fallback generator); plus outage scripts of the primary meters on every "
+        "generated formula with fallbacks (grid power, grid reactive power, consumer, producer, PV, battery) over two "
+        "component graphs with metric-specific encodings; distinct by canonical JSON hash")
 
 REGIME = "PrimaryStreamError"
 
@@ -293,6 +299,182 @@ def gen_fullstack(rng) -> dict:
                        "i": [-(m + 1) * 256 - t if rng.random() < 0.8 else None for m in range(n)],
                        "order": rng.choice(["mi", "im"]), "settle_between": rng.random() < 0.7})
     return {"drive": "pvpool", "meters": n, "script": script}
+
+
+# ------------------------------------------------------------------------------------------ full stack (generated formulas)
+# Every generated formula whose generator builds fallback formulas (grid power / grid REACTIVE power / consumer /
+# producer / PV / battery power), built by the real `FormulaEnginePool` over a component graph, fed by a stand-in for the
+# resampling actor that answers every `ComponentMetricRequest` (also the ones the lazily started fallback formulas send).
+# Readings are physically consistent — a meter reads the sum of what is behind it (+ the site load at the grid meter) for
+# EVERY metric — and active and reactive power carry different encodings (leaf c at tick t: active ±(1000·c + t),
+# reactive 7·c − t), so a fallback formula built for another metric than the formula it backs gives visibly wrong numbers.
+GENFB_TOPO: dict[str, dict] = {
+    # GRID -> METER(2) -> two PV inverters: the grid meter is the primary of the inverters
+    "A": {"comps": [(1, "GRID", None), (2, "METER", None), (3, "INVERTER", "SOLAR"), (4, "INVERTER", "SOLAR")],
+          "conns": [(1, 2), (2, 3), (2, 4)], "load": [], "batteries": [], "primaries": [2]},
+    # GRID -> grid METER(2, with the site load) -> PV meter(3)->inv, battery meter(5)->inv->battery, PV meter(8)->2 inv
+    "B": {"comps": [(1, "GRID", None), (2, "METER", None), (3, "METER", None), (4, "INVERTER", "SOLAR"),
+                    (5, "METER", None), (6, "INVERTER", "BATTERY"), (7, "BATTERY", None), (8, "METER", None),
+                    (9, "INVERTER", "SOLAR"), (10, "INVERTER", "SOLAR")],
+          "conns": [(1, 2), (2, 3), (3, 4), (2, 5), (5, 6), (6, 7), (2, 8), (8, 9), (8, 10)], "load": [2],
+          "batteries": [7], "primaries": [3, 5, 8]},
+}
+GENFB_FORMULAS = {"grid_power": "ACTIVE_POWER", "grid_reactive_power": "REACTIVE_POWER", "consumer_power": "ACTIVE_POWER",
+                  "producer_power": "ACTIVE_POWER", "pv_power": "ACTIVE_POWER", "battery_power": "ACTIVE_POWER"}
+
+
+def genfb_reading(topo: str, cid: int, metric: str, t: int) -> int | None:
+    """What component `cid` measures for `metric` at tick `t` (None: it has no such reading)."""
+    tp = GENFB_TOPO[topo]
+    kinds = {c: (cat, k) for c, cat, k in tp["comps"]}
+    cat, k = kinds[cid]
+    if cat == "INVERTER":
+        if metric == "ACTIVE_POWER":
+            return -(1000 * cid + t) if k == "SOLAR" else 1000 * cid + t
+        return 7 * cid - t
+    if cat == "METER":
+        tot = sum(genfb_reading(topo, b, metric, t) or 0 for a, b in tp["conns"]
+                  if a == cid and kinds[b][0] in ("METER", "INVERTER"))
+        if cid in tp["load"]:
+            tot += (50000 + 3 * t) if metric == "ACTIVE_POWER" else (11 + 2 * t)
+        return tot
+    return None
+
+
+def genfb_truth(topo: str, formula: str, t: int) -> int:
+    """The physical quantity the formula stands for, OF ITS OWN METRIC, at tick `t` (whichever of the primary meters or
+    their fallback components it is computed from)."""
+    tp = GENFB_TOPO[topo]
+    metric = GENFB_FORMULAS[formula]
+    leaves = [(c, k) for c, cat, k in tp["comps"] if cat == "INVERTER"]
+    if formula in ("grid_power", "grid_reactive_power"):
+        return genfb_reading(topo, 2, metric, t) or 0
+    if formula in ("pv_power", "producer_power"):
+        return sum(genfb_reading(topo, c, metric, t) or 0 for c, k in leaves if k == "SOLAR")
+    if formula == "battery_power":
+        return sum(genfb_reading(topo, c, metric, t) or 0 for c, k in leaves if k == "BATTERY")
+    return (50000 + 3 * t) if tp["load"] else 0  # consumer_power: the site load
+
+
+async def _run_genfb(case: dict) -> dict:
+    from datetime import datetime, timedelta, timezone
+    from types import SimpleNamespace
+
+    g.import_engine()
+    from frequenz.channels import Broadcast
+    from frequenz.client.microgrid import Component, ComponentCategory, Connection, InverterType
+    from frequenz.quantities import Quantity
+    from frequenz.sdk._internal._channels import ChannelRegistry
+    from frequenz.sdk.microgrid import connection_manager
+    from frequenz.sdk.microgrid.component_graph import _MicrogridComponentGraph
+    from frequenz.sdk.timeseries import Sample
+    from frequenz.sdk.timeseries.formula_engine import _formula_generators as fg
+    from frequenz.sdk.timeseries.formula_engine._formula_engine_pool import FormulaEnginePool
+    from frequenz.sdk.timeseries.formula_engine._formula_generators._formula_generator import FormulaGeneratorConfig
+
+    tp = GENFB_TOPO[case["topo"]]
+    t0 = datetime(2024, 1, 1, tzinfo=timezone.utc)
+    graph = _MicrogridComponentGraph(
+        components={Component(c, getattr(ComponentCategory, cat), getattr(InverterType, k) if k else None)
+                    for c, cat, k in tp["comps"]},
+        connections={Connection(a, b) for a, b in tp["conns"]})
+    old = connection_manager._CONNECTION_MANAGER  # pylint: disable=protected-access
+    connection_manager._CONNECTION_MANAGER = SimpleNamespace(component_graph=graph)  # type: ignore[assignment]
+    try:
+        registry = ChannelRegistry(name="c19")
+        requests: Any = Broadcast(name="resampler-requests")
+        req_rx = requests.new_receiver()
+        subs: dict[str, Any] = {}
+
+        async def actor() -> None:
+            async for req in req_rx:
+                name = req.get_channel_name()
+                if name not in subs:
+                    subs[name] = (req, registry.get_or_create(Sample[Quantity], name).new_sender())
+
+        task = asyncio.create_task(actor())
+        pool = FormulaEnginePool("c19", registry, requests.new_sender())
+        gens = {"grid_power": fg.GridPowerFormula, "grid_reactive_power": fg.GridReactivePowerFormula,
+                "consumer_power": fg.ConsumerPowerFormula, "producer_power": fg.ProducerPowerFormula,
+                "pv_power": fg.PVPowerFormula, "battery_power": fg.BatteryPowerFormula}
+        f = case["formula"]
+        if f == "grid_reactive_power":
+            eng = pool.from_reactive_power_formula_generator(f, gens[f])
+        elif f == "battery_power":
+            eng = pool.from_power_formula_generator(f, gens[f], FormulaGeneratorConfig(component_ids=set(tp["batteries"])))
+        else:
+            eng = pool.from_power_formula_generator(f, gens[f])
+        has_fb: dict[str, bool] = {}
+        try:  # which terms the generator gave a fallback (a fact about how the formula was built)
+            for name, fetcher in eng._builder._metric_fetchers.items():  # pylint: disable=protected-access
+                has_fb["".join(ch for ch in name if ch.isdigit())] = fetcher._fallback is not None
+        except AttributeError:
+            has_fb = {}
+        out = eng.new_receiver(max_size=1000)
+        await g.settle()
+        outs: list = []
+        for t in range(case["ticks"]):
+            for req, sender in list(subs.values()):
+                v = (None if t in case["missing"].get(str(req.component_id), [])
+                     else genfb_reading(case["topo"], req.component_id, req.metric_id.name, t))
+                await sender.send(Sample(t0 + timedelta(seconds=t), None if v is None else Quantity(float(v))))
+            await g.settle()
+            got = []
+            while len(out):
+                smp = out.consume()
+                got.append([int((smp.timestamp - t0).total_seconds()),
+                            None if smp.value is None else rat(smp.value.base_value)])
+            outs.append(got)
+        await pool.stop()
+        task.cancel()
+        return {"outputs": outs, "has_fallback": has_fb, "formula_text": str(eng),
+                "subscribed": sorted(f"{r.component_id}:{r.metric_id.name}" for r, _ in subs.values())}
+    finally:
+        connection_manager._CONNECTION_MANAGER = old  # pylint: disable=protected-access
+
+
+def oracle_genfb(ctx: Ctx, case: dict, obs: dict) -> None:
+    """value     every emitted sample of tick T is stamped T and a non-None value is the physical quantity OF THE
+                 FORMULA'S OWN METRIC at T — with a primary meter missing that is the sum of its fallback components'
+                 samples of that metric at the same tick;
+       live      a tick is emitted, and with a value, unless a missing primary has no fallback in this formula or is in
+                 its start-up window (the tick of its first failure and the next one)."""
+    topo, f = case["topo"], case["formula"]
+    first_missing = {c: min(ts) for c, ts in case["missing"].items() if ts}
+    for t, got in enumerate(obs["outputs"]):
+        if len(got) != 1 or got[0][0] != t:
+            ctx.violation("genfb-live", case, {"detail": f"tick {t}: emitted {got}, expected one sample stamped {t}", **obs})
+            return
+        val = got[0][1]
+        want = rat(Fraction(genfb_truth(topo, f, t)))
+        if val is not None and val != want:
+            ctx.violation("genfb-value", case, {"detail": f"tick {t}: {f} = {val}, but the {GENFB_FORMULAS[f]} quantity is "
+                                                          f"{want} (primary meters missing: "
+                                                          f"{[c for c, ts in case['missing'].items() if t in ts]})", **obs})
+            return
+        if val is None and obs["has_fallback"]:
+            excused = any(t in ts and (not obs["has_fallback"].get(c, False) or t <= first_missing[c] + 1)
+                          for c, ts in case["missing"].items())
+            if not excused:
+                ctx.violation("genfb-live", case, {"detail": f"tick {t}: {f} has no value although every missing primary "
+                                                             f"has a fallback that is past its start-up", **obs})
+                return
+
+
+def gen_genfb(rng) -> dict:
+    topo = rng.choice(["A", "A", "B"])
+    formula = rng.choice([f for f in GENFB_FORMULAS if not (topo == "A" and f == "battery_power")])
+    ticks = rng.randint(6, 11)
+    missing: dict[str, list[int]] = {}
+    for c in GENFB_TOPO[topo]["primaries"]:
+        if rng.random() < 0.85:
+            a = rng.randint(1, ticks - 3)
+            b = rng.randint(a + 2, ticks)
+            ts = list(range(a, b))
+            if rng.random() < 0.3 and b + 1 < ticks:  # a second outage after a recovery
+                ts += list(range(b + 1, ticks))
+            missing[str(c)] = ts
+    return {"drive": "genfb", "topo": topo, "formula": formula, "ticks": ticks, "missing": missing}
 
 
 # ------------------------------------------------------------------------------------------ the model's view
@@ -585,6 +767,12 @@ def check_case(ctx: Ctx, case: dict) -> tuple[dict, dict] | None:
         ctx.case(case, tags=["drive:pvpool-fullstack", f"meters:{case['meters']}"],
                  nontrivial=any(v is None for tick in case["script"] for v in tick["m"]))
         return None
+    if case["drive"] == "genfb":
+        obs = g.run_async(_run_genfb(case))
+        oracle_genfb(ctx, case, obs)
+        ctx.case(case, tags=["drive:generated-formula-fullstack", f"formula:{case['formula']}", f"topology:{case['topo']}"],
+                 nontrivial=any(obs["has_fallback"].get(c, False) and ts for c, ts in case["missing"].items()))
+        return None
     obs = run_impl(case)
     a = oracle(ctx, case, obs)
     tags, nontrivial = tags_of(case, a, obs)
@@ -611,6 +799,8 @@ def run(ctx: Ctx) -> None:
         one(gen_case(rng, small=i % 3 == 0))
     for i in range(ctx.budget(60, 600)):
         one(gen_fullstack(ctx.subrng("fullstack", i)))
+    for i in range(ctx.budget(48, 480)):
+        one(gen_genfb(ctx.subrng("genfb", i)))
     if ctx.tier == "thorough":
         for case in exhaustive_cases(4):
             one(case)
@@ -623,7 +813,7 @@ def run(ctx: Ctx) -> None:
 def replay(ctx: Ctx, data: dict) -> None:
     python_flags()
     case = data.get("case")
-    if not case or ("events" not in case and "script" not in case):
+    if not case or ("events" not in case and "script" not in case and case.get("drive") != "genfb"):
         return run(ctx)
     r = check_case(ctx, case)
     if r is not None:
